@@ -40,10 +40,7 @@ for _f in ("write_def_decl", "write_inline_def"):
            modifies=_LOG + ["self.printer.emitted"],
            ensures=[("kept", "forall(lambda k: implies(k in old(self.printer.emitted), k in self.printer.emitted), ty='Str')")],
            raises={"*": {}}, note="emits the def (its own contract: contracts/codegen_decls.py); lines already emitted stay emitted")
-ASSUME("builtins:sorted@" + _WVD, params={"iterable": "Set[Str]", "key": "Any=None"}, returns="List[Str]",
-       ensures=[("fresh", "fresh(result)"),
-                ("same-members", "forall(lambda k: in_prefix(content(result), len(result), k) == (k in iterable), ty='Str')")],
-       note="sorted(set, key=...): a new list holding exactly the set's elements")
+# sorted(to_write, key=lambda ident: (ident in comp_idents, ident)) is modelled by the engine: same elements, keys never decrease
 
 _OWN = ("k not in old(identifiers.argument_declared) and k not in old(identifiers.locally_declared) "
         "and not (self.compiler.enable_loop and k == 'loop') and (limit is None or k in old(limit))")
@@ -87,6 +84,8 @@ C(_WVD,
                       "forall(lambda k: implies(in_prefix(_s1, len(_s1), k), limit is None or k in pre(limit)), ty='Str')", "P"),
                      ("every name read and not bound is in the list",
                       "forall(lambda k: implies(k in pre(identifiers.undeclared) and %s, in_prefix(_s1, len(_s1), k)), ty='Str')" % _OWN.replace("old(", "pre("), "P"),
+                     ("names taken from the context are declared before the defs of this scope (whose argument defaults may read them)",
+                      "forall(lambda i, j: implies(0 <= i and i < j and j < len(_s1) and _s1[i] in comp_idents, _s1[j] in comp_idents))", "P"),
                      ("lines-stay", "forall(lambda k: implies(k in pre(%s), k in %s), ty='Str')" % (_E, _E), "P")]
                     + [(lab + " (so far)", expr.replace("old(", "pre("), "P") for lab, expr in _looked_up(_DONE)],
              "modifies": _LOG + [_E]}},
